@@ -31,6 +31,18 @@ macro_rules! instances {
     )* };
 }
 
+/// error-path instances: small unwinding bound (the drop glue of `Error` is recursive through `dyn Error`; every extra
+/// unrolling multiplies CBMC's formula) — these harnesses contain no loop of their own
+macro_rules! shallow_instances {
+    ($( $name:ident => $body:expr; )*) => { $(
+        #[cfg_attr(kani, kani::proof)]
+        #[cfg_attr(amv_replay, test)]
+        #[cfg_attr(kani, kani::unwind(3))]
+        #[cfg_attr(kani, kani::stub(crate::error::ErrorKind::or, crate::amv::common::or_contract))]
+        pub(crate) fn $name() { $body }
+    )* };
+}
+
 // ------------------------------------------------------------------------------------------------
 // C02 — every operation is a step of the (id,type) -> value map model
 //   pre-state: concrete shape `mask` (enumerated), symbolic values; source outcome: Good / symbolic error kind
@@ -100,7 +112,7 @@ fn step_load_err<T: Compound + Mk>(ty_i: usize, mask: u8, oc: u8) {
     }
     std::mem::forget(c);
 }
-instances! {
+shallow_instances! {
     c02_k01e_load_a_err0 => step_load_err::<A>(0, 0b0000, 4);
     c02_k01e_load_a_err1 => step_load_err::<A>(0, 0b1110, 4);
     c02_k01e_load_s_err => step_load_err::<S>(2, 0b0111, 4);
@@ -309,7 +321,7 @@ fn step_retry(mask: u8) {
     assert!(c.src.reads.get() == 2, "one read per attempt");
     std::mem::forget(c);
 }
-instances! {
+shallow_instances! {
     c03_k4_retry_0 => step_retry(0b0000);
     c03_k4_retry_1 => step_retry(0b0110);
 }
